@@ -494,6 +494,27 @@ def inline_term(case, res):
     return "(merge_verdict %s %s %s %s %s)" % (g_ln(case["first"]), g_ln(case["second"]), ds, out, g_nat(used))
 
 
+def g_str(x):
+    return '"' + x.replace('"', '""') + '"%string'
+
+
+def log_term(case, res):
+    """C38: run_log over the rounds the implementation executed, with its decision-log text"""
+    if "rounds" not in res:
+        return 3
+    rs = []
+    for rnd, r in zip(case["rounds"], res["rounds"]):
+        if "before" not in r:
+            return 3
+        ds = r.get("ds_used", rnd.get("ds", []))
+        push = g_list(["(%s, (%d, %d))" % (g_nat(i), k, v) for i, k, v in rnd.get("push", [])])
+        tr = "{| t_push := %s; t_order := %s; t_ds := %s; t_obs := %s |}" % (
+            push, g_list([g_ln(order_of(b)) for b in r["before"]]), g_script(ds), g_tobs(r))
+        text = g_opt(g_str(r["log"])) if ("log" in r and "panic" not in r and not r.get("bad")) else "None"
+        rs.append("{| l_round := %s; l_log := %s |}" % (tr, text))
+    return "(run_log %s %s)" % (g_list([g_hook(h) for h in case["hooks"]]), g_list(rs))
+
+
 def case_term(case, res):
     if case["k"] == "inline":
         return inline_term(case, res)
